@@ -56,6 +56,9 @@ def root_case(rng, w, n, signed):
     else:
         tag, x = value(rng, w, n)
         x %= lim
+    if rng.random() < 0.3 and x > 1:
+        # degrees right at the value's bit length (early-out guards compare `bits` with n)
+        deg = max(1, x.bit_length() + rng.choice([-2, -1, -1, 0, 1]))
     if signed and rng.random() < 0.4 and deg % 2 == 1:
         x = pat(-x, W)
         if rng.random() < 0.2:
